@@ -26,11 +26,15 @@ type Obs struct {
 	Txt []Run  `json:"txt"` // Result.Text word by word, as maximal runs of consecutive source words
 	Htm []HRun `json:"htm"` // visible words of Result.Node outside embed placeholders (runs carry chain / table flag)
 	Vis []Run  `json:"vis"` // visible words of Result.Node including embed placeholders, canonical runs
-	Vnp []Run  `json:"vnp"` // visible words of Result.Node outside embed placeholders, canonical runs
-	Ph  []Run  `json:"ph"`  // words inside embed placeholders
-	Phc []HRun `json:"phc"` // the visible words inside embed placeholders with their chains (a tweet is a quote)
-	Hid []Run  `json:"hid"` // words under hidden elements of the output
-	Cmt []Run  `json:"cmt"` // words inside comment nodes of the output
+	// joints: the source words after which the word goes on without a blank (10<sup>th</sup>), per view
+	TxtJ  []int  `json:"txtj"`
+	VisJ  []int  `json:"visj"`
+	Glued int    `json:"glued"` // number of joints in the text view
+	Vnp   []Run  `json:"vnp"`   // visible words of Result.Node outside embed placeholders, canonical runs
+	Ph    []Run  `json:"ph"`    // words inside embed placeholders
+	Phc   []HRun `json:"phc"`   // the visible words inside embed placeholders with their chains (a tweet is a quote)
+	Hid   []Run  `json:"hid"`   // words under hidden elements of the output
+	Cmt   []Run  `json:"cmt"`   // words inside comment nodes of the output
 
 	MediaKept []bool `json:"mkept"` // per Src.Media entry: is it present in Result.Node
 	NImgOut   int    `json:"nimgout"`
@@ -107,6 +111,8 @@ type projector struct {
 	// the word at the end of the last text node of each category that did not end in white space: it continues
 	// in the next text node of that category unless a box of its own (a non-inline element, a line break) intervenes
 	pend map[string]*pendingWord
+	// where words() notes the joints of the words it splits into source words (nil: nowhere)
+	jrec *[]int
 }
 
 type pendingWord struct {
@@ -187,7 +193,11 @@ func (p *projector) words(s string) []int {
 			continue
 		} else if p.src != nil && p.src.glued[f] {
 			// a word made of several source words that the SOURCE already shows as one (zq1<b>zq2</b>)
-			out = append(out, tokensOf(f)...)
+			ts := tokensOf(f)
+			out = append(out, ts...)
+			if p.jrec != nil {
+				*p.jrec = append(*p.jrec, ts[:len(ts)-1]...)
+			}
 		} else {
 			out = append(out, 0)
 		}
@@ -235,7 +245,9 @@ func (p *projector) walk(n *html.Node, chain string, inPh, hid, inTbl bool) {
 			p.text("ph", n.Data, func(s string) {
 				p.obs.Ph = p.appendWords(p.obs.Ph, s)
 				p.obs.Phc = p.appendHWords(p.obs.Phc, s, c, inTbl)
+				p.jrec = &p.obs.VisJ
 				p.obs.Vis = p.appendWords(p.obs.Vis, s)
+				p.jrec = nil
 			})
 		case hid:
 			p.text("hid", n.Data, func(s string) { p.obs.Hid = p.appendWords(p.obs.Hid, s) })
@@ -243,7 +255,9 @@ func (p *projector) walk(n *html.Node, chain string, inPh, hid, inTbl bool) {
 			p.text("vis", n.Data, func(s string) {
 				p.obs.Htm = p.appendHWords(p.obs.Htm, s, c, inTbl)
 				p.obs.Vnp = p.appendWords(p.obs.Vnp, s)
+				p.jrec = &p.obs.VisJ
 				p.obs.Vis = p.appendWords(p.obs.Vis, s)
+				p.jrec = nil
 			})
 		}
 		return
@@ -468,7 +482,7 @@ func digestResult(res *distiller.Result) map[string]string {
 // project builds the observation of a call. src may be nil (families that do not
 // use the token abstraction).
 func project(res *distiller.Result, err error, src *Src, chains, urls *interner) *Obs {
-	o := &Obs{Txt: []Run{}, Htm: []HRun{}, Vis: []Run{}, Vnp: []Run{}, Ph: []Run{}, Phc: []HRun{}, Hid: []Run{}, Cmt: []Run{},
+	o := &Obs{Txt: []Run{}, Htm: []HRun{}, Vis: []Run{}, TxtJ: []int{}, VisJ: []int{}, Vnp: []Run{}, Ph: []Run{}, Phc: []HRun{}, Hid: []Run{}, Cmt: []Run{},
 		MediaKept: []bool{}, CI: []int{}, DomImg: []int{}, Placeholders: [][]string{},
 		Census: map[string]int{}, Dig: map[string]string{}}
 	if err != nil || res == nil {
@@ -480,7 +494,10 @@ func project(res *distiller.Result, err error, src *Src, chains, urls *interner)
 		return o
 	}
 	p := &projector{obs: o, src: src, chains: chains, urls: urls}
+	p.jrec = &o.TxtJ
 	o.Txt = p.appendWords(o.Txt, res.Text)
+	p.jrec = nil
+	o.Glued = len(o.TxtJ)
 	o.TxtWC = countWords(res.Text)
 	o.WC = res.WordCount
 	o.NTitle = len(res.Title)
